@@ -320,9 +320,59 @@ def fn_key(fn):
     return parts[0] + '::' + '::'.join(parts[-2:])
 
 
+def constructor_sites(program, rep, found):
+    """PROV: a value of a subtag type is built (struct aggregate) only inside its validator, inside an `unsafe` unchecked constructor, in derive
+    output, or as the empty language Language(None): no safe function can mint a subtag from unvalidated text"""
+    from .. import terms
+    facts = program.facts
+    n = 0
+    for role in ('Language', 'Script', 'Region', 'Variant'):
+        adts = [a for a in facts.adts if a.startswith('unic_langid_impl::') and a.endswith('::' + role)]
+        allowed = set(found.get(role, []))
+        for fn, b in sorted(facts.bodies.items()):
+            if not b.get('mir') or not fn.startswith(('unic_langid_impl::', 'unic_locale_impl::')):
+                continue
+            if fn in allowed or (b.get('sig') and b['sig']['unsafe']) or (b.get('impl') and b['impl'].get('derived')):
+                continue
+            if b['kind'] == 'Closure' and any(fn.startswith(a + '::') for a in allowed):
+                continue
+            builds = False
+            for blk in b['mir']['blocks']:
+                for st_ in blk['stmts']:
+                    if st_['k'] == 'assign' and st_['rv']['k'] == 'agg' and st_['rv']['kind'].get('agg') == 'adt' and st_['rv']['kind'].get('def') in adts:
+                        builds = True
+            if not builds:
+                continue
+            n += 1
+            e = pxm.PX(program, opaque=allowed)       # what the validator builds is the validator's business (VAI): keep it opaque here
+            bad = []
+            try:
+                segs = e.explore(fn)
+            except pxm.Limit as ex:
+                segs = []
+                bad.append('INCONCLUSIVE(%s)' % ex)
+            for sg in segs:
+                vals = []
+                if sg.ret is not None:
+                    vals.extend(terms.find_terms(sg.ret, lambda t: t[0] == 'adt' and t[1] in adts))
+                for ev in sg.state.events:
+                    if ev[0] in ('store', 'lstore'):
+                        vals.extend(terms.find_terms(ev[2], lambda t: t[0] == 'adt' and t[1] in adts))
+                for v in vals:
+                    pay = v[3][0] if v[3] else None
+                    if role == 'Language' and pay is not None and pay[0] == 'adt' and pay[2] == 'None':
+                        continue
+                    bad.append('builds a %s from %s without going through %s::from_bytes' % (role, e.short(pay, 100), role))
+            rep.ob('prov:ctor:%s:%s' % (role, fn_key(fn)), 'PROV-CTOR', fn, b['span'], '%s does not construct a %s from unvalidated text' % (short_fn(fn), role), not bad,
+                   detail='\n'.join(sorted(set(bad))[:3]))
+    return n
+
+
 def run_all(program, rep, roles_wanted=None):
     roles = load_roles()
     found, missing = find_validators(program.facts)
+    if roles_wanted is None or {'Language', 'Script', 'Region', 'Variant'} <= set(roles_wanted):
+        constructor_sites(program, rep, found)
     results = {}
     for r in missing:
         if roles_wanted is None or r in roles_wanted:
